@@ -163,9 +163,13 @@ def chk_case(inp, c):
     if len(row_status) != N:
         row_status = [None] * N
 
-    def mech(base, r):
+    def mech(base, r, excess=1.0):
+        """Status-aware mechanism key.  'optimal_inaccurate' explains deviations of the order of the tolerance only:
+        a deviation of more than 4x the tolerance is keyed ':gross' (never a known finding)."""
         st = row_status[r]
-        return base if st in (None, "optimal") else f"{base}@{st}"
+        if st in (None, "optimal"):
+            return base
+        return f"{base}@{st}" + (":gross" if (st == "optimal_inaccurate" and excess > 4.0) else "")
     for r in range(N):
         x, b = X[r], B[r]
         xo_ls, eo = oracles.bvls(Mt, c0, lbv, ubv, b, w)
@@ -174,7 +178,7 @@ def chk_case(inp, c):
             continue
         tb = 0.01 * (ubv - lbv) if finite else np.full(n, 0.01 * (np.max(np.abs(xo_ls)) + 1))
         viol = np.maximum(lbv - x, np.where(np.isfinite(ubv), x - ubv, -np.inf))
-        c.require(np.all(viol <= tb), f"{model}: returned intensities respect the bounds", mechanism=mech(f"{model}-bounds", r),
+        c.require(np.all(viol <= tb), f"{model}: returned intensities respect the bounds", mechanism=mech(f"{model}-bounds", r, float(np.max(viol / tb))),
                   row=r, worst=float(np.max(viol)), x=x)
         c.require(np.all(np.abs(Bp[r] - (Mt @ x + c0)) <= 1e-10 * (np.abs(Mt) @ np.abs(x) + np.abs(c0)) + 1e-12),
                   f"{model}: predicted capture is the model's capture of the returned intensities",
@@ -193,7 +197,7 @@ def chk_case(inp, c):
             gaps.append(v - vo)
             c.margin("poisson NLL gap / tol", v - vo, tol)
             c.require(v - vo <= tol, "poisson: weighted negative log-likelihood is the global minimum over in-bound intensities",
-                      mechanism=mech("poisson-suboptimal", r), row=r, nll=v, nll_opt=vo, witness_x=xo, x=x, cls=inp["classes"][r],
+                      mechanism=mech("poisson-suboptimal", r, (v - vo) / tol), row=r, nll=v, nll_opt=vo, witness_x=xo, x=x, cls=inp["classes"][r],
                       statuses=statuses)
         else:
             res = exc_oracle(Mt, c0, lbv, ubv, b)
@@ -205,13 +209,13 @@ def chk_case(inp, c):
             gaps.append(v - to)
             c.margin("excitation gap / tol", v - to, 5e-3)
             c.require(v - to <= 5e-3, "excitation: largest excitation difference is the global minimum over in-bound intensities",
-                      mechanism=mech("excitation-suboptimal", r), row=r, obj=v, obj_opt=to, witness_x=xo, x=x, cls=inp["classes"][r],
+                      mechanism=mech("excitation-suboptimal", r, (v - to) / 5e-3), row=r, obj=v, obj_opt=to, witness_x=xo, x=x, cls=inp["classes"][r],
                       baseline_kind=inp["basekind"], statuses=statuses)
         if ingamut:
             tol_r = 5e-2 * max(1.0, float(np.max(np.abs(b))))
             dev = float(np.max(np.abs(Mt @ x + c0 - b)))
             c.margin(f"{model} in-gamut reproduction / tol", dev, tol_r)
-            c.require(dev <= tol_r, f"{model}: an in-gamut target is reproduced", mechanism=mech(f"{model}-ingamut-not-reproduced", r),
+            c.require(dev <= tol_r, f"{model}: an in-gamut target is reproduced", mechanism=mech(f"{model}-ingamut-not-reproduced", r, dev / tol_r),
                       row=r, dev=dev, baseline_kind=inp["basekind"])
     # all three models agree in gamut
     rows_in = [r for r in range(N) if inp["classes"][r] == "in"]
